@@ -10,11 +10,9 @@ from props.parts import _mg_common as mg
 SYS = 7
 NAME = "RubyGems"
 
-F_C01_TAIL = "F-C01-3"    # trailing numerals of value 0 (00): final length test is not symmetric
 F_C02_TRIM = "F-C02-1"    # zero-trimming loop truncates at every zero
 F_C02_CASE = "F-C02-12"    # letters are lower-cased, Gem::Version keeps their case
 F_C02_EMPTY = "F-C02-13"   # a segment that begins with '-' right after '.' yields an extra 0 element
-F_C02_TAIL = "F-C02-14"    # F-C01-3 seen against the reference
 F_C10_PRE = "F-C10-1"     # prerelease canon
 
 
@@ -76,7 +74,7 @@ def c01(ctx):
         flags = gem_flags(ctx, strs)
         ctx.evaluations += n * n
         ctx.count("gem:pool:strings", n)
-        ctx.count("gem:pool:outside-c01-domain", sum(1 for s in strs if flags.get(s) and not flags[s][0]))
+        ctx.count("gem:pool:ending-in-zero-numeral", sum(1 for s in strs if flags.get(s) and not flags[s][0]))
         for s in strs:
             ctx.nontriv((SYS, "pool", s))
         for (i, j) in unstable:
@@ -84,16 +82,11 @@ def c01(ctx):
                           {"system": NAME, "a": strs[i], "b": strs[j]})
         for law in laws:
             kind, i, j, k = law[0].decode(), law[1], law[2], law[3]
-            outside = any(flags.get(strs[x]) is not None and not flags[strs[x]][0] for x in (i, j, k))
             ctx.violations.append({"what": "RubyGems: comparison is %s" % mg.LAW_TEXT[kind], "kind": "oracle",
-                                   "known": F_C01_TAIL if outside else None,
+                                   "known": None,
                                    "input": {"system": NAME, "a": strs[i], "b": strs[j], "c": strs[k]},
                                    "observed": {"cmp(a,b)": m[i * n + j], "cmp(b,c)": m[j * n + k], "cmp(a,c)": m[i * n + k]},
                                    "required": "total preorder laws"})
-        # sv_pool reports at most 20 law violations; look at all triples whose members are in the proved domain
-        dom = [x for x in range(n) if flags.get(strs[x]) and flags[strs[x]][0]]
-        if len(laws) >= 20:
-            check_laws(ctx, strs, m, n, dom)
         pairs = [(strs[i], strs[j]) for i in range(n) for j in range(n)]
         mo = mg.model_pairs(ctx, "svm_cmp_gem", pairs)
         nd = 0
@@ -103,36 +96,6 @@ def c01(ctx):
                 if nd <= 20:
                     ctx.divergence("svm_cmp_gem", {"a": a, "b": b}, m[idx], sx(r))
         ctx.count("corr:svm_cmp_gem", len(pairs))
-
-
-def check_laws(ctx, strs, m, n, dom):
-    """the four laws on the sub-matrix of the versions inside the proved domain"""
-    sg = mg.sign
-    bad = 0
-
-    def report(kind, i, j, k):
-        nonlocal bad
-        bad += 1
-        if bad <= 10:
-            ctx.violation("RubyGems: comparison is %s" % mg.LAW_TEXT[kind], {"system": NAME, "a": strs[i], "b": strs[j], "c": strs[k]},
-                          observed={"cmp(a,b)": m[i * n + j], "cmp(b,c)": m[j * n + k], "cmp(a,c)": m[i * n + k]},
-                          required="total preorder laws")
-    for i in dom:
-        if m[i * n + i] != 0:
-            report("refl", i, i, i)
-        for j in dom:
-            if sg(m[i * n + j]) != -sg(m[j * n + i]):
-                report("antisym", i, j, j)
-    for i in dom:
-        for j in dom:
-            cij = m[i * n + j]
-            if cij > 0:
-                continue
-            for k in dom:
-                if m[j * n + k] <= 0 and m[i * n + k] > 0:
-                    report("trans", i, j, k)
-                if cij == 0 and sg(m[i * n + k]) != sg(m[j * n + k]):
-                    report("congr", i, j, k)
 
 
 # ----------------------------------------------------------------------------- C02
@@ -177,14 +140,11 @@ def c02(ctx):
             low = [(a.lower(), b.lower()) for a, b in hp]
             speclow = mg.model_pairs(ctx, "svm_spec_gem", low)
             modfixlow = mg.model_pairs(ctx, "svm_cmp_gem_fix", low)
-            fl = gem_flags(ctx, mg.uniq([x for pr in hp for x in pr]))
             for (a, b, g, sp), mo, mf, sl, mfl in zip(hits, mod, modfix, speclow, modfixlow):
                 model_disagrees = (mo[0] == b"ok" and mg.sign(mo[1]) != sp)
                 known = None
                 if model_disagrees:
-                    if (fl.get(a) and not fl[a][0]) or (fl.get(b) and not fl[b][0]):
-                        known = F_C02_TAIL
-                    elif mf[0] == b"ok" and mg.sign(mf[1]) == sp:
+                    if mf[0] == b"ok" and mg.sign(mf[1]) == sp:
                         known = F_C02_TRIM
                     elif (has_upper(a) or has_upper(b)) and sl[0] == b"ok" and mfl[0] == b"ok" and mg.sign(mfl[1]) == sl[1]:
                         known = F_C02_CASE      # the only difference left is the case of letters
